@@ -77,7 +77,8 @@ impl SimCb {
         if self.weak_left > 0 {
             self.weak_left -= 1;
             self.weak_fired += 1;
-            let b = match self.weak_kind.wrapping_add(self.weak_left) % 2 {
+            // every sequence of reserved patterns (all-ones / all-zeroes) is reachable: bit k of weak_kind decides draw k
+            let b = match (self.weak_kind >> (self.weak_left % 8)) & 1 {
                 0 => 0xff,
                 _ => 0x00,
             };
@@ -184,6 +185,12 @@ impl AnyConn {
     }
     pub fn disconnect(&mut self, cb: &mut SimCb, reason: &[u8]) -> Result<(), ()> {
         both!(self, c => c.disconnect(cb, reason))
+    }
+    pub fn reset(&mut self) {
+        both!(self, c => c.reset())
+    }
+    pub fn is_unconnected(&self) -> bool {
+        both!(self, c => c.is_unconnected())
     }
     pub fn flush(&mut self, cb: &mut SimCb) -> Result<(), ()> {
         both!(self, c => c.flush(cb))
